@@ -22,7 +22,9 @@ def _shift_place(p, off):
 def _shift_op(o, off, promoted):
     if o["k"] in ("copy", "move"):
         _shift_place(o["place"], off)
-    elif o["k"] == "const" and o.get("promoted") and promoted is not None:
+    elif o["k"] == "const" and o.get("promoted") and promoted is not None and "promoted_val" not in o:
+        # (an operand that already carries its value came from a helper inlined one level down: its index
+        # refers to that helper's table, not to this one)
         rep = o.get("repr", "")
         try:
             idx = int(rep[rep.rindex("promoted[") + 9:rep.rindex("]")])
@@ -62,9 +64,9 @@ def inline_call(fd, bb, gd):
         # a helper's local must not capture the name of one of the caller's variables (rules look variables up by name)
         if v["name"] in taken:
             k = 1
-            while "%s~%d" % (v["name"], k) in taken:
+            while "%s__%d" % (v["name"], k) in taken:
                 k += 1
-            v["name"] = "%s~%d" % (v["name"], k)
+            v["name"] = "%s__%d" % (v["name"], k)
         taken.add(v["name"])
         fd["debug"].append(v)
     dest = t["dest"]
@@ -123,6 +125,7 @@ def inline_call(fd, bb, gd):
     fd["blocks"].extend(g["blocks"])
     _tag_error_returns(fd, nb, off, dest)
     _thread_error_returns(fd, nb, off, dest, target)
+    _thread_variant_returns(fd, nb, off, dest, target)
 
 
 def _succs_of(term):
@@ -286,3 +289,170 @@ def inline_new_helpers(bodies, known):
             del by_path[r]
             removed.append(r)
     return inlined, removed
+
+
+# ---- threading of constant-variant returns ---------------------------------------------------------------
+# A helper that ends in `Ok(None)` on one path and `Ok(Some(x))` on another, inlined into `if let Some(..) =
+# helper()? { .. }`, joins both values before the caller tests them; in the joined graph the caller's None arm is
+# no longer dominated by the helper's "nothing found" edge.  Each return-value assignment whose variant is a
+# constant gets its own copy of the path to the join and of the caller's decision chain, with the decisions
+# already taken.
+
+_DISCR = {"None": 0, "Some": 1, "Ok": 0, "Err": 1, "Continue": 0, "Break": 1}
+
+
+def _agg_variant(blk, upto, local):
+    """(variant, payload) of the aggregate last assigned to `local` in blk before statement index upto."""
+    for i in range(upto - 1, -1, -1):
+        st = blk["stmts"][i]
+        if st["s"] == "assign" and st["place"]["local"] == local and not st["place"]["proj"]:
+            rv = st["rv"]
+            if rv["r"] == "aggregate" and rv.get("agg") == "adt" and rv.get("variant") in _DISCR:
+                pay = None
+                if rv["ops"] and rv["ops"][0]["k"] in ("move", "copy") and not rv["ops"][0]["place"]["proj"]:
+                    pay = _agg_variant(blk, i, rv["ops"][0]["place"]["local"])
+                return (rv["variant"], pay)
+            return None
+    return None
+
+
+def _thread_variant_returns(fd, nb, off, dest, target):
+    if target is None or dest["proj"]:
+        return
+    end = len(fd["blocks"])
+    sites = []
+    for j in range(nb, end):
+        b = fd["blocks"][j]
+        if b["cleanup"]:
+            continue
+        last = None
+        for i, st in enumerate(b["stmts"]):
+            if st["s"] == "assign" and st["place"]["local"] == off and not st["place"]["proj"]:
+                last = i
+        if last is not None:
+            kv = _agg_variant(b, last + 1, off)
+            if kv is not None and kv[1] is not None or (kv is not None and kv[0] in ("Err",)):
+                sites.append((j, kv))
+    if len(sites) < 2 and not (len(sites) == 1):
+        return
+    for (j, kv) in sites:
+        b = fd["blocks"][j]
+        if b["term"]["t"] != "goto":
+            continue
+        # 1. clone the callee's way from the assignment to its return (drops, storage markers)
+        region, st_, seen = [], [b["term"]["target"]], set()
+        while st_:
+            x = st_.pop()
+            if x in seen or not (nb <= x < end):
+                continue
+            seen.add(x)
+            region.append(x)
+            st_.extend(_succs_of(fd["blocks"][x]["term"]))
+        if len(region) > 30:
+            continue
+        if any(fd["blocks"][x]["term"]["t"] in ("switch", "call") for x in region):
+            continue   # only straight-line epilogues are threaded
+        mapping = {}
+        for x in region:
+            mapping[x] = len(fd["blocks"])
+            fd["blocks"].append(copy.deepcopy(fd["blocks"][x]))
+        exits = []
+        for x in region:
+            cb = fd["blocks"][mapping[x]]
+            _retarget(cb["term"], mapping)
+            if cb["term"]["t"] == "goto" and cb["term"]["target"] == target:
+                exits.append(mapping[x])
+        if not exits:
+            continue
+        # 2. the caller's decision chain with the value known
+        chain_head = _clone_chain(fd, target, {dest["local"]: kv})
+        if chain_head is None:
+            # nothing was decided: undo nothing (the clones are simply unreachable)
+            continue
+        for e in exits:
+            fd["blocks"][e]["term"]["target"] = chain_head
+        b["term"]["target"] = mapping[b["term"]["target"]]
+
+
+def _clone_chain(fd, start, known):
+    """Clone blocks from `start` while every decision is determined by `known` (local -> (variant, payload)).
+    Returns the index of the first cloned block, or None if no switch could be decided."""
+    known = dict(known)
+    consts = {}
+    head = None
+    prev = None
+    decided = 0
+    cur = start
+    for _ in range(10):
+        blk = fd["blocks"][cur]
+        nbk = copy.deepcopy(blk)
+        idx = len(fd["blocks"])
+        fd["blocks"].append(nbk)
+        if head is None:
+            head = idx
+        if prev is not None:
+            pt = fd["blocks"][prev]["term"]
+            pt["target"] = idx
+        for st in nbk["stmts"]:
+            if st["s"] != "assign" or st["place"]["proj"]:
+                continue
+            x = st["place"]["local"]
+            rv = st["rv"]
+            known.pop(x, None)
+            consts.pop(x, None)
+            if rv["r"] == "discriminant" and not rv["place"]["proj"] and rv["place"]["local"] in known:
+                consts[x] = _DISCR[known[rv["place"]["local"]][0]]
+            elif rv["r"] == "use" and rv["op"]["k"] in ("move", "copy"):
+                pl = rv["op"]["place"]
+                if not pl["proj"] and pl["local"] in known:
+                    known[x] = known[pl["local"]]
+                elif not pl["proj"] and pl["local"] in consts:
+                    consts[x] = consts[pl["local"]]
+                elif len(pl["proj"]) == 2 and pl["proj"][0]["p"] == "downcast" and pl["proj"][1]["p"] == "field" and pl["proj"][1].get("name") == "0" and pl["local"] in known:
+                    kv = known[pl["local"]]
+                    if kv[0] == pl["proj"][0]["variant"] and kv[1] is not None:
+                        known[x] = kv[1]
+        t = nbk["term"]
+        if t["t"] == "goto":
+            prev = idx
+            cur = t["target"]
+            continue
+        if t["t"] == "call" and _is_branch(t) and t["args"] and t["args"][0]["k"] in ("move", "copy") and not t["args"][0]["place"]["proj"] \
+                and t["args"][0]["place"]["local"] in known and t.get("target") is not None and not t["dest"]["proj"]:
+            kv = known[t["args"][0]["place"]["local"]]
+            known[t["dest"]["local"]] = ("Continue", kv[1]) if kv[0] in ("Ok", "Some") else ("Break", None)
+            prev = idx
+            cur = t["target"]
+            continue
+        if t["t"] == "switch" and t["discr"]["k"] in ("move", "copy") and not t["discr"]["place"]["proj"] and t["discr"]["place"]["local"] in consts:
+            val = consts[t["discr"]["place"]["local"]]
+            arms = {int(v): bb for v, bb in t["arms"]}
+            tgt = arms.get(val, t["otherwise"])
+            # keep the switch (rules read conditions off it) but make the impossible arms unreachable
+            nbk["term"] = {"t": "switch", "discr": t["discr"], "arms": [[val, tgt]] if val in arms else [], "otherwise": tgt if val not in arms else _dead_block(fd, t["span"]), "span": t["span"]}
+            decided += 1
+            # stop after the decision unless the arm is again a pure decision block
+            nxt = fd["blocks"][tgt]
+            if nxt["term"]["t"] in ("switch", "goto") or (nxt["term"]["t"] == "call" and _is_branch(nxt["term"])):
+                # continue threading through the chosen arm
+                prev_switch = idx
+                cur = tgt
+                sub = _clone_chain(fd, cur, known)
+                if sub is not None:
+                    if val in arms:
+                        nbk["term"]["arms"] = [[val, sub]]
+                    else:
+                        nbk["term"]["otherwise"] = sub
+            return head if decided else None
+        break
+    return head if decided else None
+
+
+def _dead_block(fd, span):
+    fd["blocks"].append({"stmts": [], "term": {"t": "unreachable", "span": span}, "cleanup": False})
+    return len(fd["blocks"]) - 1
+
+
+def _is_branch(t):
+    c = (t.get("callee") or "") + " " + (t.get("resolved") or "")
+    return "Try>::branch" in c or "Try::branch" in c
